@@ -21,6 +21,7 @@
 From Coq Require Import List ZArith Bool Lia.
 From Verif Require Import C04.Model C04.Spec C04.Proofs C04.Property.
 From Verif Require Import C05.Model C05.Proofs C05.Proofs2 C05.History C05.HistoryProofs C05.Witness.
+From Verif Require Import C05.Decode C05.DecodeProofs.
 Import ListNotations.
 Open Scope Z_scope.
 
@@ -427,3 +428,207 @@ Example C05_detector_budget_witness :
   detect_fuel g = 5%nat
   /\ dfs_nodes g 2 (nodes g) = DFuel /\ dfs_nodes g 3 (nodes g) = DOk.
 Proof. vm_compute. repeat split; reflexivity. Qed.
+
+(* ---- (h) the decode step: files instead of decoded configurations ---------- *)
+
+(* Decode.v makes the loader's first step explicit: every file of the four
+   directories (quotas, path parameters, flows, processor definitions) is
+   BYTES; [decode] says DocNone (no document / a null document: yaml.Unmarshal
+   leaves the pointer nil), DocErr (the decoder returns an error) or Doc a;
+   UnmarshalPolicyRawData turns DocNone into an empty object ([alloc_nil]), and
+   the stages run in the order of NewValidationStream + Initialize.  The decoder
+   on files with real content is a Section variable: the statements below hold
+   for EVERY such decoder ([pq], [pp], [pf], [pd]). *)
+
+(* The lexical facts, at the level of lines: a file of blank lines, comment
+   lines and document-start markers holds no document; neither does one whose
+   only value is a null (null / Null / NULL / ~) *)
+Theorem C05_scan_no_document : forall ts,
+  Forall no_content ts ->
+  run_tokens Before ts = SNone.
+Proof. intros ts H. apply (run_tokens_no_content ts H). Qed.
+Print Assumptions C05_scan_no_document.
+
+Theorem C05_scan_null_document : forall ts rest cm,
+  Forall no_content ts -> Forall no_content rest ->
+  run_tokens Before (ts ++ TVal CNull cm :: rest) = SNone.
+Proof. exact run_tokens_then_null. Qed.
+Print Assumptions C05_scan_null_document.
+
+(* ... and on bytes: "# disabled\n", "---\n", "--- \n...\n", "null\n", "~", a
+   byte-order mark followed by a comment, blank lines and comments are DocNone;
+   "{}" is the empty object; "..." and a null continued on the next line (the
+   string "null null") are errors; a null whose line ends in a comment is
+   complete, whatever follows; "[]", "hello", a mapping with content and any
+   file with a tab are left to the decoder proper *)
+Example C05_scan_examples :
+  scan [35; 32; 100; 105; 115; 97; 98; 108; 101; 100; 10] = SNone
+  /\ scan [45; 45; 45; 10] = SNone
+  /\ scan [45; 45; 45; 32; 10; 46; 46; 46; 10] = SNone
+  /\ scan [110; 117; 108; 108; 10] = SNone
+  /\ scan [126] = SNone
+  /\ scan [239; 187; 191; 35; 32; 99; 10] = SNone
+  /\ scan [10; 10; 32; 32; 35; 32; 97; 10; 10; 35; 98; 10; 32; 32; 32; 10] = SNone
+  /\ scan [45; 45; 45; 10; 45; 45; 45; 10; 110; 97; 109; 101; 58; 32; 65; 10] = SNone
+  /\ scan [] = SNone
+  /\ scan [123; 125; 10] = SEmptyMap
+  /\ scan [46; 46; 46; 10] = SErr
+  /\ scan [110; 117; 108; 108; 10; 110; 117; 108; 108; 10] = SErr
+  /\ scan [126; 32; 35; 32; 99; 10; 78; 85; 76; 76; 10] = SNone
+  /\ scan [9; 10] = SOther
+  /\ scan [91; 93; 10] = SOther
+  /\ scan [104; 101; 108; 108; 111; 10] = SOther
+  /\ scan [110; 97; 109; 101; 58; 32; 65; 10] = SOther.
+Proof. vm_compute. repeat split; reflexivity. Qed.
+
+(* Clause "a configuration that cannot be run is rejected WITH AN ERROR": the
+   loader over files never hands a nil pointer to anybody - on every set of
+   files, for every decoder - and never exhausts a budget *)
+Theorem C05_loader_never_panics : forall pq pp pf pd d s,
+  load_files pq pp pf pd d <> OPanic s.
+Proof. exact load_files_never_panics. Qed.
+Print Assumptions C05_loader_never_panics.
+
+Theorem C05_file_loader_terminates : forall pq pp pf pd d,
+  load_files pq pp pf pd d <> OFuel.
+Proof. exact load_files_no_fuel. Qed.
+Print Assumptions C05_file_loader_terminates.
+
+(* A flow file that holds no document (DocNone) or cannot be decoded (DocErr):
+   the configuration is REJECTED - at the flow-file stage, or before it by the
+   quota loader - whatever the other files are.  Nothing is built, nothing
+   runs: the outcome carries no flows. *)
+Theorem C05_docless_flow_file_rejected : forall pq pp pf pd d f,
+  In f (d_flows d) ->
+  decode_file flowcfg empty_flow pf f = DocNone \/ decode_file flowcfg empty_flow pf f = DocErr ->
+  (quota_stage pq true (d_quotas d) = None /\ load_files pq pp pf pd d = OReject 1)
+  \/ (quota_stage pq true (d_quotas d) = Some (OReject 4) /\ load_files pq pp pf pd d = OReject 4).
+Proof. intros. eapply docless_flow_rejected; eauto. Qed.
+Print Assumptions C05_docless_flow_file_rejected.
+
+(* the same for a quota file: rejected by the quota loader, first of all stages *)
+Theorem C05_docless_quota_file_rejected : forall pq pp pf pd d f,
+  In f (d_quotas d) ->
+  decode_file qdoc empty_qdoc pq f = DocNone \/ decode_file qdoc empty_qdoc pq f = DocErr ->
+  load_files pq pp pf pd d = OReject 4.
+Proof. intros. eapply docless_quota_rejected; eauto. Qed.
+Print Assumptions C05_docless_quota_file_rejected.
+
+(* Path-parameter files never change the verdict (their errors are logged by
+   the caller; with fix-F-C05m an empty list entry is such an error).  A
+   processor-definition file without a document is an empty definition, which
+   names no processor and is ignored; one that cannot be decoded rejects. *)
+Theorem C05_path_param_files_irrelevant : forall pq pp pf pd qs ps fs ds,
+  load_files pq pp pf pd (DIR qs ps fs ds) = load_files pq pp pf pd (DIR qs [] fs ds).
+Proof. exact pparams_irrelevant. Qed.
+Print Assumptions C05_path_param_files_irrelevant.
+
+Theorem C05_procdef_files : forall pq pp pf pd qs ps fs ds,
+  ((forall f, In f ds -> decode_file ddoc DDef pd f <> DocErr) ->
+   load_files pq pp pf pd (DIR qs ps fs ds) = load_files pq pp pf pd (DIR qs ps fs []))
+  /\ (forall f, In f ds -> decode_file ddoc DDef pd f = DocErr ->
+      exists s, load_files pq pp pf pd (DIR qs ps fs ds) = OReject s /\ (s = 4 \/ s = 1 \/ s = 5)).
+Proof.
+  intros. split.
+  - apply procdefs_irrelevant.
+  - intros f Hin He. apply (undecodable_procdef_rejected pq pp pf pd (DIR qs ps fs ds) f Hin He).
+Qed.
+Print Assumptions C05_procdef_files.
+
+(* What the loader over files accepts, [load] accepted on flows every one of
+   which was DECODED from one of the flow files (no flow comes from a file
+   without a document): so every theorem above about [load cf = Accept fs]
+   applies to it - here C05_transaction_safe. *)
+Theorem C05_files_accept_is_load : forall pq pp pf pd d fl,
+  load_files pq pp pf pd d = OAccept fl ->
+  exists l, load (CF l (quota_defined (d_quotas d))) = Accept fl
+            /\ forall fc, In fc l ->
+                 exists f, In f (d_flows d) /\ decode_file flowcfg empty_flow pf f = Doc fc.
+Proof. intros pq pp pf pd d fl H. exact (accept_is_load pq pp pf pd d fl H). Qed.
+Print Assumptions C05_files_accept_is_load.
+
+Theorem C05_files_transaction_safe : forall pq pp pf pd d fs beh s s2,
+  load_files pq pp pf pd d = OAccept fs ->
+  sel_from fs s -> (forall s', s2 = Some s' -> sel_from fs s') ->
+  let fuel := exec_fuel fs in
+  (snd (run_req fuel beh s s2) = None \/ exists k, snd (run_req fuel beh s s2) = Some (NoRespNode k))
+  /\ (length (fst (run_req fuel beh s s2)) <= req_bound fuel s s2)%nat
+  /\ forall sc,
+       (snd (run_res fuel beh s sc) = None \/ exists k, snd (run_res fuel beh s sc) = Some (NoRespNode k))
+       /\ (length (fst (run_res fuel beh s sc)) <= res_bound fuel s)%nat.
+Proof.
+  intros pq pp pf pd d fs beh s s2 H.
+  destruct (accept_is_load pq pp pf pd d fs H) as [l [Hl _]].
+  exact (transaction_safe _ fs beh s s2 Hl).
+Qed.
+Print Assumptions C05_files_transaction_safe.
+
+(* Conservative extension: on files rendered from structures (what the suites
+   `load` and `txn` write) with usable quota files, the loader over files IS
+   [load] on the configuration made of those flows - the duplicate-name check
+   of GetFlows' loop is [nodupZ], the per-file validation [flow_struct_ok]. *)
+Theorem C05_load_files_conservative : forall pq pp pf pd qs ps l ds,
+  forallb (fun q => qd_quotas q && qd_valid q) qs = true ->
+  load_files pq pp pf pd (DIR (map Rendered qs) ps (map Rendered l) (map Rendered ds))
+  = of_verdict (load (CF l (quota_defined (map Rendered qs)))).
+Proof. exact load_files_rendered. Qed.
+Print Assumptions C05_load_files_conservative.
+
+(* non-vacuity: the good configuration, its two flows as files, next to a
+   comment-only path-parameter file and a document-less processor definition,
+   is accepted with the flows [load] builds; with a comment-only third flow
+   file ("# disabled\n") it is rejected at the flow-file stage; with a "~"
+   quota file, by the quota loader *)
+Definition err_q : list Z -> doc qdoc := fun _ => DocErr.
+Definition err_p : list Z -> doc pdoc := fun _ => DocErr.
+Definition err_f : list Z -> doc flowcfg := fun _ => DocErr.
+Definition err_d : list Z -> doc ddoc := fun _ => DocErr.
+Definition comment_file : list Z := [35; 32; 100; 105; 115; 97; 98; 108; 101; 100; 10].
+
+Example C05_files_witness :
+  load_files err_q err_p err_f err_d
+    (DIR [] [Bytes comment_file] (map Rendered (cf_flows wg_config)) [Bytes [45; 45; 45; 10]])
+  = OAccept wg_flows
+  /\ wg_flows <> []
+  /\ load_files err_q err_p err_f err_d
+       (DIR [] [] (map Rendered (cf_flows wg_config) ++ [Bytes comment_file]) []) = OReject 1
+  /\ load_files err_q err_p err_f err_d
+       (DIR [Bytes [126]] [] (map Rendered (cf_flows wg_config)) []) = OReject 4
+  /\ load_files err_q err_p err_f err_d
+       (DIR [] [] (map Rendered (cf_flows wg_config)) [Bytes [91; 93; 10]]) = OReject 5.
+Proof. vm_compute. repeat split; try reflexivity. discriminate. Qed.
+
+(* The seeded decoder (C05-8): only BLANK input gets an empty object; a file
+   that holds no document otherwise leaves the nil pointer to the callers, all
+   of which dereference it.  "Never panics" fails in each of the four
+   directories - while a blank file is still rejected with an error. *)
+Definition C05_nil_decoder_never_panics : Prop :=
+  forall pq pp pf pd d s, load_files_nil pq pp pf pd d <> OPanic s.
+
+Theorem C05_nil_decoder_refuted : ~ C05_nil_decoder_never_panics.
+Proof.
+  intros H.
+  apply (H err_q err_p err_f err_d (DIR [] [] [Bytes comment_file] []) 1). vm_compute. reflexivity.
+Qed.
+Print Assumptions C05_nil_decoder_refuted.
+
+Example C05_nil_decoder_sites :
+  load_files_nil err_q err_p err_f err_d (DIR [] [] [Bytes comment_file] []) = OPanic 1
+  /\ load_files_nil err_q err_p err_f err_d (DIR [Bytes [45; 45; 45; 10]] [] [] []) = OPanic 4
+  /\ load_files_nil err_q err_p err_f err_d (DIR [] [Bytes [110; 117; 108; 108; 10]] [] []) = OPanic 6
+  /\ load_files_nil err_q err_p err_f err_d (DIR [] [] [] [Bytes [126; 10]]) = OPanic 5
+  /\ load_files_nil err_q err_p err_f err_d (DIR [] [] [Bytes [32; 10; 10]] []) = OReject 1
+  /\ load_files_nil err_q err_p err_f err_d (DIR [] [] [Bytes []] []) = OReject 1
+  /\ load_files err_q err_p err_f err_d (DIR [] [] [Bytes comment_file] []) = OReject 1.
+Proof. vm_compute. repeat split; reflexivity. Qed.
+
+(* without fix-F-C05m an empty list entry in a path-parameter file is a panic *)
+Definition C05_unguarded_path_params_never_panic : Prop :=
+  forall pq pp pf pd d s, load_files_unguarded pq pp pf pd d <> OPanic s.
+
+Theorem C05_unguarded_path_params_refuted : ~ C05_unguarded_path_params_never_panic.
+Proof.
+  intros H.
+  apply (H err_q err_p err_f err_d (DIR [] [Rendered (PP true)] [] []) 7). vm_compute. reflexivity.
+Qed.
+Print Assumptions C05_unguarded_path_params_refuted.
